@@ -502,6 +502,10 @@ def run(cx, tier='quick'):
     rep.counts['SEL+DUP'] = k
     from .c13 import include_own_scanners
     include_own_scanners(cx, facts, rep, ['::into::'])
+    from .helpers import check_hash_type_tokens, check_type_with_meta, check_ident_or_index
+    check_hash_type_tokens(cx, rep)
+    check_type_with_meta(cx, rep, 'SUM-INTO')
+    check_ident_or_index(cx, rep)
     rep.floor('SUM-INTO', 8)
     rep.floor('SEL+DUP', 4)
     rep.assumptions += ['type equality is educe\'s documented notion: equality of token strings']
